@@ -61,8 +61,12 @@ Definition expected (s : state) (t : tid) (fault : bool) : option (nat * ca * na
       Some (k_order, c,
             if fault then 2
             else if live s c (m_loc m) then (if Nat.eqb (m_loc m) (m_key m) then 0 else 2) else 1)
+  | DWantLock _ => Some (k_lock, 0, 0)
+  | DLoadReg _ => Some (k_loadreg, c, nf (oacct (s_reg sl)))
+  | DLoadKey _ _ => Some (k_loadkey, c, nf (oacct (s_key sl)))
   | DelReg _ => Some (k_delreg, c, 0)
   | DelKey _ => Some (k_delkey, c, 0)
+  | DUnlock _ => Some (k_unlock, 0, 0)
   end.
 
 Definition triple_eqb (a b : nat * ca * nat) : bool :=
@@ -135,7 +139,7 @@ Record ostate := OState {
   o_target : tid -> ca;                 (* CA of the thread (from its Start) *)
   o_last : tid -> nat * bool;           (* kind and fault of the thread's previous operation *)
   o_ok_e : bool;                        (* so far only the directory in use was touched *)
-  o_ok_d : bool                         (* so far no complete, live account was deleted *)
+  o_ok_d : bool                         (* so far deleteAccountLocally only deleted a stored account the CA had forgotten *)
 }.
 
 Definition oinit : ostate :=
@@ -179,8 +183,17 @@ Definition ostep (o : ostate) (e : event) : ostate :=
          storeTx's rollback; every other Delete is deleteAccountLocally *)
       let rollback := Nat.eqb k k_delreg && Nat.eqb lk k_storekey && lf in
       let recreate_del := (Nat.eqb k k_delreg || Nat.eqb k k_delkey) && negb rollback in
-      (* (d) deleteAccountLocally never hits a proper account the CA still knows *)
-      let ok_d := negb (recreate_del && negb f && o_live_proper o kc) in
+      (* (d) deleteAccountLocally runs only on a stored account (reg and key file present) whose
+         registration is one the CA has forgotten: its first Delete finds that, its second Delete
+         finds the reg file gone (so no other account, and in particular no account the CA still
+         knows, is ever deleted — whatever the interleaving) *)
+      let ok_d := negb (recreate_del && negb f) ||
+                  (if Nat.eqb k k_delreg
+                   then match s_reg sl with
+                        | Some r => (r <=? o_forgotten o kc) && has_key sl
+                        | None => false
+                        end
+                   else negb (has_reg sl)) in
       let slots' :=
           if f then o_slots o
           else if Nat.eqb k k_storereg then upd (o_slots o) kc (Slot (ov v) (s_key sl))
@@ -207,7 +220,9 @@ Fixpoint spec_cas (o : ostate) (f : final) (c : ca) (l : list (nat * nat * nat))
   match l with
   | [] => true
   | (cr, rg, ky) :: r =>
-      (* (a) registrations bounded *)
+      (* (a) registrations bounded: each one beyond the first is paid for by a failed save, a crash
+         between registering and saving, or a re-installation of the CA (and by a deletion) *)
+      (cr <=? 1 + o_fsaves o c + o_crashes o c + o_resets o c) &&
       (cr <=? 1 + o_fsaves o c + o_crashes o c + o_deletes o c) &&
       (* (b) persisted together *)
       (negb (Nat.eqb (o_deletes o c) 0) || Nat.eqb ky 0 || Nat.eqb rg ky) &&
